@@ -15,7 +15,7 @@ RULE = ("EXHAUSTIVE: for rule in {OneOfMany, AtMostOne, AnyOfMany} x n in 1..5 s
         "raises, delivery to a client raises) and with a Write handler that prevents the default and then publishes the vector as Busy; On/Off in foreign spellings (ON, on, padded, 1, True) as client write and as "
         "assignment (refusal is fine; what is stored or published must be a protocol value and satisfy the rule); the same graph for 2..3 switches with elements being hidden and shown again (Element.enabled) at run time. After each "
         "operation the state tuple and the children of every setSwitchVector published during it are judged against the rule "
-        "invariants. non-trivial = every (node, operation) pair; distinct = hash(rule, n, node, operation)")
+        "invariants. The graphs are explored once more with element names contained in one another, and once more with the switches kept under ordinary words as Python keys (on, off, selected, active, current, first, last, default) and reached by attribute access. non-trivial = every (node, operation) pair; distinct = hash(rule, n, node, operation)")
 ASSUMPTIONS = ["the exact successor of a multi-switch write is left open (only the invariants are demanded)",
                "bulk selection of several switches under OneOfMany/AtMostOne must keep the invariants and must not raise"]
 QUICK_SHARDS = 2
